@@ -67,7 +67,7 @@ def fresh_tunnel(lp, kind, port):
 def api_call(p, name):
     t0 = time.time()
     if name == "rules-post":
-        st, _ = p.api("rules", data=[{"target": "direct"}], timeout=5.0)
+        st, _ = p.api("rules", data=RULES, timeout=5.0)          # the list the proxy was started with: posting it changes nothing
     elif name == "logrotate":
         st, _ = p.api("logrotate", timeout=5.0)
     elif name == "metrics":
@@ -82,6 +82,8 @@ def api_call(p, name):
     return time.time() - t0
 
 
+RULES = [{"filter": "request.target.port == 1", "target": "deny"}, {"filter": "request.target.port == 2", "target": "lb"},
+         {"filter": "request.target.port == 3", "target": "dead"}, {"filter": "request.target.port != 4", "target": "direct"}]
 API = ["status", "live", "history", "rules", "rules-post", "metrics", "logrotate"]
 FRESH = ["http", "socks5", "socks4"]
 
@@ -121,7 +123,11 @@ def run(tier, seed, replay=None):
     listeners = [{"name": "http", "bind": "%s:%d" % (LOOP, lp["http"])}, {"name": "socks", "bind": "%s:%d" % (LOOP, lp["socks"])},
                  {"name": "https", "type": "http", "bind": "%s:%d" % (LOOP, lp["https"]), "tls": {"cert": crt, "key": key}},
                  {"name": "socksauth", "type": "socks", "bind": "%s:%d" % (LOOP, lp["socksauth"]), "auth": {"required": True, "users": [{"username": "alice", "password": "secret"}]}}]
-    p = e2e.Proxy(driver, listeners, [{"name": "direct"}], [{"target": "direct"}], metrics=True, access_log=True, name="c14", history=50)
+    # routes that end in every kind of refusal (by target port): 1 deny, 2 a load balancer (carries TCP only: a UDP request fails the
+    # feature gate), 3 an upstream that is down, 4 no rule at all
+    dead_port = e2e.free_port()
+    conns = [{"name": "direct"}, {"name": "lb", "type": "loadbalance", "connectors": ["direct"]}, {"name": "dead", "type": "http", "server": LOOP, "port": dead_port}]
+    p = e2e.Proxy(driver, listeners, conns, RULES, metrics=True, access_log=True, name="c14", history=50)
     n_eval, dist, worst = 0, collections.Counter(), {}
     held = []
 
@@ -139,6 +145,38 @@ def run(tier, seed, replay=None):
     try:
         p.start()
         judge("idle (baseline)", measure(p, lp, org.port, 2))
+        # ---- requests that are refused in every way the dispatcher knows: each must be answered, and none may leave
+        #      anything behind that slows the API or later connections down -------------------------------------------
+        def refused(what, data, port):
+            t0 = time.time()
+            try:
+                c = socket.create_connection((LOOP, port), timeout=3)
+                c.sendall(data)
+                got, how = e2e.recv_all(c, timeout=LIMIT + 1.5)
+                e2e.close_quiet(c)
+            except OSError as e:
+                got, how = b"", "error:%s" % e
+            return what, time.time() - t0, got, how
+        ip = socket.inet_aton(LOOP)
+        refusals = []
+        for port_, why in ((1, "deny rule"), (3, "upstream down"), (4, "no rule")):
+            refusals.append(("CONNECT refused by: %s" % why, ("CONNECT %s:%d HTTP/1.1\r\n\r\n" % (LOOP, port_)).encode(), lp["http"]))
+            refusals.append(("SOCKS5 CONNECT refused by: %s" % why, b"\x05\x01\x00\x05\x01\x00\x01" + ip + struct.pack(">H", port_), lp["socks"]))
+            refusals.append(("SOCKS4 CONNECT refused by: %s" % why, b"\x04\x01" + struct.pack(">H", port_) + ip + b"u\x00", lp["socks"]))
+        refusals.append(("CONNECT with Proxy-Protocol: udp routed to an upstream that carries TCP only", ("CONNECT %s:2 HTTP/1.1\r\nProxy-Protocol: udp\r\n\r\n" % LOOP).encode(), lp["http"]))
+        refusals.append(("SOCKS5 BIND", b"\x05\x01\x00\x05\x02\x00\x01" + ip + struct.pack(">H", 9), lp["socks"]))
+        refusals.append(("SOCKS5 unknown command", b"\x05\x01\x00\x05\x09\x00\x01" + ip + struct.pack(">H", 9), lp["socks"]))
+        refusals.append(("GET instead of CONNECT", b"GET / HTTP/1.1\r\nHost: x\r\n\r\n", lp["http"]))
+        for rnd in range(2):
+            with concurrent.futures.ThreadPoolExecutor(len(refusals)) as ex:
+                outs_r = list(ex.map(lambda a: refused(*a), refusals))
+            for what, t, got, how in outs_r:
+                n_eval += 1
+                dist["refused"] += 1
+                if not got or how != "eof" or t > LIMIT + 1.0:
+                    rep.fail("C14: %s: %s after %.1fs (reply %r) - a refused request must be answered and closed" % (what, how, t, got[:40]),
+                             {"kind": "failing-input", "phase": "refusals", "operation": what, "seconds": t})
+            judge("after %d requests were refused in every way (round %d)" % (len(refusals), rnd + 1), measure(p, lp, org.port, 2))
         # ---- clients stalled after every prefix of their handshake ---------------------------
         stalls = []
         for kind, port in (("http", lp["http"]), ("socks5", lp["socks"]), ("socks4", lp["socks"]), ("socks4a", lp["socks"]), ("socks5auth", lp["socksauth"])):
@@ -211,12 +249,35 @@ def run(tier, seed, replay=None):
         src.close()
         import shutil
         shutil.rmtree(p.dir, ignore_errors=True)
+    # ---- UDP: a session whose client does not read next to a session on the same QUIC connection ----------------------
+    import udp_world as uw
+    nb = None
+    try:
+        w = uw.UdpWorld(driver, name="c14-udp")
+        try:
+            for attempt in (0, 1):
+                nb = uw.stalled_neighbour(w, "c_quic_dgram", b"c14nb%d" % attempt)
+                if min(nb.get("during", 0), nb.get("later", 0)) >= 4:
+                    break
+            alive_u = w.alive()
+        finally:
+            w.close()
+        n_eval += 1
+        dist["udp-stalled-neighbour"] += 1
+        if nb["before"] < 5 or not nb.get("a_established") or not alive_u:
+            rep.fail("C14: UDP stalled-neighbour scenario could not be set up: %s" % nb, {"kind": "failing-input", "phase": "udp", "operation": "setup", "history": nb})
+        elif min(nb.get("during", 0), nb.get("later", 0)) < 4:
+            rep.fail("C14: while a UDP-over-CONNECT client does not read its connection (a chatty origin sends it 12000 datagrams), another UDP session through the same QUIC connection got %d and then %d of 5 echoes (5 before, %d after the stalled client left): a slow client delays other clients" % (
+                nb.get("during", 0), nb.get("later", 0), nb.get("after", 0)), {"kind": "failing-input", "phase": "udp", "operation": "stalled neighbour", "history": nb})
+    except OSError as e:
+        rep.fail("C14: UDP world: %s" % e, {"kind": "failing-input", "phase": "udp", "operation": "setup"})
     rep.coverage.update({
+        "udp_stalled_neighbour": nb,
         "evaluations": n_eval, "distinct_nontrivial": len(stalls) + len(API) + len(FRESH),
-        "rule": "clients stalled after k bytes of their handshake for k over every prefix (thorough) or a spread of prefixes (quick) of HTTP CONNECT, SOCKS5, SOCKS5 with password, SOCKS4, SOCKS4a, plus TCP-only / half ClientHello / post-handshake stalls on a TLS listener; 6 tunnels blocked on a reader that does not read; 6 churn threads; meanwhile every API endpoint %s and fresh tunnels on %s, limit %.1fs each" % (API, FRESH, LIMIT),
+        "rule": "14 requests refused in every way (deny, no rule, upstream down, UDP to a TCP-only balancer, BIND, unknown command, GET) on http / SOCKS5 / SOCKS4, each answered and followed by latency probes; clients stalled after k bytes of their handshake for k over every prefix (thorough) or a spread of prefixes (quick) of HTTP CONNECT, SOCKS5, SOCKS5 with password, SOCKS4, SOCKS4a, plus TCP-only / half ClientHello / post-handshake stalls on a TLS listener; 6 tunnels blocked on a reader that does not read; 6 churn threads; meanwhile every API endpoint %s and fresh tunnels on %s, limit %.1fs each" % (API, FRESH, LIMIT),
         "input_distribution": dict(dist), "stalled_clients": len(stalls) + 1, "worst_latency_s": {k: round(v, 3) for k, v in worst.items()},
     })
-    rep.assumptions = ["latency threshold %.1fs" % LIMIT, "QUIC and tproxy listeners are not exercised"]
+    rep.assumptions = ["latency threshold %.1fs" % LIMIT, "tproxy listeners are not exercised; QUIC is exercised on the UDP path (a stalled UDP-over-CONNECT client next to a session on the same QUIC connection)"]
     if broken and not rep.violations:
         rep.broken_obligation(broken[0], broken[1])
     return rep.finish()
